@@ -81,7 +81,7 @@ Section C10_Equiv.
 Context (F : OF).
 Add Field Ffeq10 : (k_field F).
 Notation vec := (@vec F).
-Variables (sq : F -> F) (mag : F -> Z) (z0 : F) (n : nat) (f : vec -> F) (g P : vec -> vec).
+Variables (sq : F -> F) (sqn : nat -> F) (mag : F -> Z) (z0 : F) (n : nat) (f : vec -> F) (g P : vec -> vec).
 
 (* the current point after the shift statement *)
 Definition cur (xp : vec) (xn : option vec) : vec := match xn with Some v => v | None => xp end.
@@ -265,6 +265,25 @@ Theorem gen_fista_optimize_in_range : forall mode h fuel delta eps max_iteration
 Proof. intros mode h fuel delta eps mx x0 xn k E.
   pose proof (gen_fista_optimize_steps mode h fuel delta eps mx x0) as S. rewrite E in S. destruct S as [Hk Ex]. injection Ex as ->.
   destruct k as [|j]; [lia|]. rewrite C10_steps_last. apply C10_fista_step_range. Qed.
+(* ---- the code BEFORE the loops: start point and step parameter as functions of the options (None = raises), for every combination of
+   given / missing option value, start point and tomography *)
+Theorem gen_start_eq : forall vs origin,
+  gen_bt_start F vs origin = C10_start F vs origin /\ gen_mom_start F vs origin = C10_start F vs origin /\
+  gen_fista_start F vs origin = C10_start F vs origin.
+Proof. intros [v|] origin; repeat split; reflexivity. Qed.
+Theorem gen_bt_mu_eq : forall mu vs qt, gen_bt_mu F sqn mu vs qt = C10_bt_mu F sqn mu vs qt.
+Proof. intros mu [l|] [m|]; unfold gen_bt_mu, C10_bt_mu; destruct (C10_truthy F mu); reflexivity. Qed.
+Theorem gen_mom_gamma_eq : forall r vs qt, gen_mom_gamma F sqn r vs qt = C10_mom_gamma F sqn r vs qt.
+Proof. intros r [l|] [m|]; unfold gen_mom_gamma, C10_mom_gamma; destruct (C10_truthy F r); reflexivity. Qed.
+Theorem gen_fista_delta_eq : forall d vs qt, gen_fista_delta F sqn d vs qt = C10_fista_delta F sqn d vs qt.
+Proof. intros [v|] [l|] [m|]; unfold gen_fista_delta, C10_fista_delta, C10_truthy, C10_getF; try destruct (negb (keqb F v (c0 F))); reflexivity. Qed.
+(* with a tomography set and default options the documented defaults are used *)
+Theorem gen_defaults_with_tomography : forall m r, C10_truthy F (Some r) = true ->
+  gen_bt_mu F sqn None None (Some m) = Some (kdiv F (C10_three F) (cmul F (C10_two F) (sqn m))) /\
+  gen_mom_gamma F sqn (Some r) None (Some m) = Some (kdiv F (c1 F) (cmul F (cmul F (C10_two F) r) (sqn m))) /\
+  gen_fista_delta F sqn None None (Some m) = Some (kdiv F (c1 F) (cmul F (C10_ten F) (sqn m))).
+Proof. intros m r Hr. unfold gen_bt_mu, gen_mom_gamma, gen_fista_delta. rewrite Hr. repeat split; reflexivity. Qed.
+
 (* ---- the stopping rule of the three loops AS WRITTEN = C10_err_value / C10_continue (value > eps continues; window = last h error values) *)
 Lemma firstn_min_length {A} (l : list A) h : firstn (Nat.min (List.length l) h) l = firstn h l.
 Proof. destruct (Nat.le_ge_cases (List.length l) h) as [H|H].
@@ -329,6 +348,11 @@ Print Assumptions gen_mom_optimize_in_range.
 Print Assumptions gen_fista_body_step.
 Print Assumptions gen_fista_optimize_steps.
 Print Assumptions gen_fista_optimize_in_range.
+Print Assumptions gen_start_eq.
+Print Assumptions gen_bt_mu_eq.
+Print Assumptions gen_mom_gamma_eq.
+Print Assumptions gen_fista_delta_eq.
+Print Assumptions gen_defaults_with_tomography.
 Print Assumptions gen_bt_body_stop.
 Print Assumptions gen_mom_body_stop.
 Print Assumptions gen_fista_body_stop.
